@@ -64,7 +64,7 @@ def check_pwa(o):
                     bad.append(("PWA with %s is another map" % tagv, {"maxdiff": L.maxdiff(gv, img)}, None))
             except TriangleContainmentError:
                 bad.append(("PWA with %s rejects points of its own triangles" % tagv, {}, None))
-    if c["tgt"] == "other":
+    if c["tgt"] == "trimesh_other":
         import menpo.transform as _mt
         from menpo.shape import PointCloud as _PC2, TriMesh as _TM2
 
@@ -74,7 +74,8 @@ def check_pwa(o):
             a_ = klass(_PC2(S.copy()), _TM2(T.copy(), trilist=other_tl))
             b_ = klass(_PC2(S.copy()), _PC2(T.copy()))
             inner = S.mean(axis=0)[None] * 0.5 + S[:3].mean(axis=0)[None] * 0.5
-            if not np.array_equal(np.asarray(a_.source.trilist), np.asarray(b_.source.trilist)):
+            tset = lambda m_: sorted(tuple(sorted(int(x) for x in t_)) for t_ in np.asarray(m_.source.trilist))
+            if tset(a_) != tset(b_):
                 bad.append(("a PWA from a plain point cloud triangulates its source differently when the TARGET carries a triangle list", {}, None))
             try:
                 if not L.close(a_.apply(inner), b_.apply(inner), TOL):
